@@ -29,6 +29,7 @@ let () =
            done
          | "N" -> step (ONewRecording (nat_of_int !nobj))
          | "A" -> incr nobj; step (ORegister (nat_of_int !nobj)); step (ORecord { lhs = nat_of_int (!nobj - 1); rhs = [] })
+         | "X" -> if !nobj > ng then decr nobj   (* ~Active of the top index: only i_gradient_ changes, seen by the next new_recording *)
          | "W" -> let lhs = nexti () in let q = nexti () in let idx = nexti () in step (OAppendDep (nat_of_int lhs, [(float_of_int q /. 4.0, nat_of_int idx)]))
          | "G" -> let i = nexti () in let q = nexti () in step (OSeed (nat_of_int i, float_of_int q /. 4.0))
          | "F" -> step OForward | "R" -> step OReverse | "C" -> step OClearGradients
